@@ -198,10 +198,13 @@ theorem put_count (e e' : Encoder) (c : Nat) (hc : e.pos.count ≤ 8) (h : put e
 theorem raw_cnt_le : ∀ c < 256, ∀ row, H3.Gen.HuffEnc.raw[c]? = some row → row.1 ≤ 30 := by decide +kernel
 
 /-- one `put` from a state of the invariant, every operation checked: the same state as with positions in
-    `Nat`, as long as the coding so far and this symbol end within `M` bytes with `7·M < 2^32` -/
-theorem putC_eq (g : Bool) (grow : Nat → Nat → Nat) (ec : EncoderC) (bits : List Bool) (c M : Nat)
+    `Nat`, as long as the byte position behind the symbol, plus one, fits `u32`, (old shape) seven times it does,
+    and (repaired shape) `put` does not refuse -/
+theorem putC_core (g : Bool) (grow : Nat → Nat → Nat) (ec : EncoderC) (bits : List Bool) (c : Nat)
     (hc : c < 256) (hI : Inv₀ ec.toE bits) (hcount : ec.pos.count ≤ 8)
-    (hM : 7 * M < 2 ^ 32) (hlen : bits.length + (codeT c).length ≤ 8 * M) :
+    (hfit : (bits.length + (codeT c).length) / 8 + 1 < 2 ^ 32)
+    (hmul : g = false → 7 * ((bits.length + (codeT c).length) / 8) < 2 ^ 32)
+    (hnr : putRefuses g ec = false) :
     ∃ ec', putC g grow ec c = some (some ec') ∧ put ec.toE c = some ec'.toE ∧
       Inv₀ ec'.toE (bits ++ codeT c) ∧ ec'.pos.count ≤ 8 := by
   obtain ⟨cnt, parts, hraw, hok, hbits, hl⟩ := raw_row c hc
@@ -209,17 +212,11 @@ theorem putC_eq (g : Bool) (grow : Nat → Nat → Nat) (ec : EncoderC) (bits : 
   have hcnt30 : cnt ≤ 30 := raw_cnt_le c hc (cnt, parts) hraw
   have hpos : ec.pos.endPos = bits.length := hI.1.pos
   have hbit : ec.pos.bit < 8 := hI.1.bit
-  rw [hl] at hlen
-  have hend : (ec.pos.endPos + cnt) / 8 ≤ M := by rw [hpos]; omega
-  obtain ⟨e1, h1, h1e, h1p⟩ := ensureFreeSpaceC_eq g grow ec cnt hbit hcount hcnt30 (by omega)
-    (fun _ => by omega)
-  have hnr : putRefuses g ec = false := by
-    have : 8 * ec.pos.byte ≤ 8 * M := by
-      have := hI.1.pos; simp only [EncoderC.toE] at this; omega
-    simp only [putRefuses, Bool.and_eq_false_imp, decide_eq_false_iff_not]
-    intro _; omega
+  rw [hl] at hfit hmul
+  obtain ⟨e1, h1, h1e, h1p⟩ := ensureFreeSpaceC_eq g grow ec cnt hbit hcount hcnt30 (by rw [hpos]; omega)
+    (fun hg => by rw [hpos]; exact hmul hg)
   have hpp := putPartsC_eq parts cnt e1 (by rw [h1p]; exact hbit) (by rw [h1p]; exact hcount)
-    (by rw [h1p]; omega)
+    (by rw [h1p, hpos]; omega)
   have hput' : putParts parts cnt e1.toE = some e' := by
     rw [h1e]; unfold put at hput; rw [hraw] at hput; exact hput
   rw [hput'] at hpp
@@ -236,6 +233,76 @@ theorem putC_eq (g : Bool) (grow : Nat → Nat → Nat) (ec : EncoderC) (bits : 
     · rw [he']; exact hI'
     · have := put_count ec.toE e' c hcount hput
       rw [← he'] at this; exact this
+
+/-- … in particular while the coding so far and this symbol end within `M` bytes with `7·M < 2^32` -/
+theorem putC_eq (g : Bool) (grow : Nat → Nat → Nat) (ec : EncoderC) (bits : List Bool) (c M : Nat)
+    (hc : c < 256) (hI : Inv₀ ec.toE bits) (hcount : ec.pos.count ≤ 8)
+    (hM : 7 * M < 2 ^ 32) (hlen : bits.length + (codeT c).length ≤ 8 * M) :
+    ∃ ec', putC g grow ec c = some (some ec') ∧ put ec.toE c = some ec'.toE ∧
+      Inv₀ ec'.toE (bits ++ codeT c) ∧ ec'.pos.count ≤ 8 := by
+  apply putC_core g grow ec bits c hc hI hcount (by omega) (fun _ => by omega)
+  have : 8 * ec.pos.byte ≤ 8 * M := by
+    have := hI.1.pos; simp only [EncoderC.toE] at this; omega
+  simp only [putRefuses, Bool.and_eq_false_imp, decide_eq_false_iff_not]
+  intro _; omega
+
+/-- the repaired `put` never overflows: it refuses, or the positions fit -/
+theorem putC_repaired (grow : Nat → Nat → Nat) (ec : EncoderC) (bits : List Bool) (c : Nat)
+    (hc : c < 256) (hI : Inv₀ ec.toE bits) (hcount : ec.pos.count ≤ 8) :
+    putC true grow ec c = some none ∨
+    ∃ ec', putC true grow ec c = some (some ec') ∧ put ec.toE c = some ec'.toE ∧
+      Inv₀ ec'.toE (bits ++ codeT c) ∧ ec'.pos.count ≤ 8 := by
+  cases hr : putRefuses true ec with
+  | true =>
+    left
+    obtain ⟨cnt, parts, hraw, _, _, _⟩ := raw_row c hc
+    unfold putC
+    rw [hraw]
+    simp only [hr, if_true]
+  | false =>
+    right
+    obtain ⟨cnt, parts, hraw, _, _, hl⟩ := raw_row c hc
+    have hcnt30 : cnt ≤ 30 := raw_cnt_le c hc (cnt, parts) hraw
+    have hpos := hI.1.pos
+    have hbit := hI.1.bit
+    simp only [EncoderC.toE] at hpos hbit
+    have hbyte : ec.pos.byte ≤ 2 ^ 32 - 1 - 8 := by
+      simp only [putRefuses, Bool.true_and, decide_eq_false_iff_not] at hr
+      omega
+    exact putC_core true grow ec bits c hc hI hcount (by rw [hl]; omega) (fun h => by cases h) hr
+
+theorem putAllC_repaired (grow : Nat → Nat → Nat) :
+    ∀ (s : List Nat) (ec : EncoderC) (bits : List Bool), (∀ b ∈ s, b < 256) → Inv₀ ec.toE bits →
+      ec.pos.count ≤ 8 →
+      putAllC true grow s ec = some .tooLong ∨
+      ∃ e', putAll s ec.toE = some e' ∧ putAllC true grow s ec = some (.ok e'.buffer)
+  | [], ec, _, _, _, _ => Or.inr ⟨ec.toE, rfl, rfl⟩
+  | c :: s, ec, bits, hs, hI, hcount => by
+    rcases putC_repaired grow ec bits c (hs c List.mem_cons_self) hI hcount with h | ⟨ec', h1, h2, hI', hc'⟩
+    · left; unfold putAllC; rw [h]
+    · rcases putAllC_repaired grow s ec' (bits ++ codeT c) (fun b hb => hs b (List.mem_cons_of_mem _ hb)) hI' hc'
+        with h | ⟨e', h3, h4⟩
+      · left; unfold putAllC; rw [h1]; exact h
+      · right
+        refine ⟨e', ?_, ?_⟩
+        · unfold putAll; rw [h2]; exact h3
+        · unfold putAllC; rw [h1]; exact h4
+
+/-- MAIN (repaired shape): on EVERY byte string no machine operation of the repaired encoder overflows: it answers
+    `Err` (`tooLong`) or `Ok` of the model's bytes. -/
+theorem hencodeC_repaired (grow : Nat → Nat → Nat) (s : List Nat) (hs : ∀ b ∈ s, b < 256) :
+    hencodeC true grow s = some .tooLong ∨ hencodeC true grow s = some (.ok (hencode s)) := by
+  have h0 : Inv₀ (EncoderC.toE ⟨⟨0, 0, 0⟩, [], 0⟩) [] :=
+    ⟨⟨rfl, by decide, by simp [EncoderC.toE], by simp [EncoderC.toE, pack_nil]⟩, rfl⟩
+  rcases putAllC_repaired grow s ⟨⟨0, 0, 0⟩, [], 0⟩ [] hs h0 (by simp) with h | ⟨e', h1, h2⟩
+  · exact Or.inl h
+  · right
+    have hb : hencode s = e'.buffer := by
+      unfold hencode hencode?
+      have : putAll s ⟨⟨0, 0, 0⟩, []⟩ = some e' := h1
+      rw [this]; rfl
+    unfold hencodeC
+    rw [h2, hb]
 
 theorem putAllC_eq (g : Bool) (grow : Nat → Nat → Nat) (M : Nat) (hM : 7 * M < 2 ^ 32) :
     ∀ (s : List Nat) (ec : EncoderC) (bits : List Bool), (∀ b ∈ s, b < 256) → Inv₀ ec.toE bits →
